@@ -279,6 +279,9 @@ def exec_for(eng, node, fr):
         return
     if isinstance(it, VOpaque):
         return exec_for_opaque(eng, node, fr, it, spec, label)
+    if isinstance(it, VObj) and eng.find_method(it.cls, "__iter__"):
+        proxy = VOpaque("obj:" + it.cls)
+        return exec_for_opaque(eng, node, fr, proxy, spec, label)
     if not isinstance(it, VList):
         raise OutOfSubset("for over %r" % (it,), node)
     m = eng.state.lists[it.lid]
@@ -309,12 +312,22 @@ def exec_for(eng, node, fr):
             broke = True
         if broke:
             return
+        for pname in getattr(spec, "establishes", []):
+            eng.oblige("%s/establishes:%s" % (label, pname), eng.reg.elem_preds[pname](eng, eng.force(x)),
+                       clause="an element that passes one full iteration satisfies %s" % pname, kind="loop-inv")
         fr.env[idx_name] = VInt(i.t + 1)
         for nm, text in spec.invariants:
             eng.oblige("%s/inv-preserved:%s" % (label, nm), eval_inv(eng, text, fr), clause=text, kind="loop-inv")
         raise PathEnd("for body end")
     else:
         eng.assume(i.t == m.length)
+        for pname in getattr(spec, "establishes", []):
+            pred = eng.reg.elem_preds[pname]
+            if not any(getattr(f, "pred_name", None) == pname for f in m.elem_facts):
+                f = lambda e, x, _p=pred: _p(e, e.force(x))
+                f.pred_name = pname
+                m.elem_facts.append(f)
+                m.__dict__.pop("cache", None)
         eng.exec_block(node.orelse, fr)
 
 
@@ -330,6 +343,8 @@ def exec_for_opaque(eng, node, fr, it, spec, label):
         eng.oblige("%s/inv-entry:%s" % (label, nm), eval_inv(eng, text, fr), clause=text, kind="loop-inv")
     havoc(eng, fr, node.body, spec)
     assume_invs(eng, spec, fr)
+    if getattr(env, "before_next", None):
+        env.before_next(eng, it, fr)      # the iterator's next() may first do other things (e.g. call start_response)
     c = eng.choose(3, "next")     # 0: yields, 1: exhausted, 2: raises
     if c == 2:
         from .pyvc import RaiseSig, VExc
